@@ -72,11 +72,14 @@ static void run_one_worker(int which) {
 }
 /* ---- blocking: a thread that would sleep lets the worker run until it is woken; if nothing can run, that is a lost wake-up ---- */
 static int blocked_forever; static _Bool in_nested;
+static _Bool hist_other_client_step(void);   /* harness specific: let another client thread issue the next operation of the sequence; 0 if there is none */
 u32 _dispatch_futex_wait(u64 addr, u32 val, u64 timeout, u32 flags) {
   if (in_nested && ir_cur == 2 && IR_LD32(addr) == val) ASSUME(0);   /* client thread B, issued from inside a running item, sleeps: it resumes only after that item; its path ends here */
-  for (int i = 0; i < MAXPEND && IR_LD32(addr) == val; i++) {
-    if (npend == 0) { blocked_forever = 1; ASSERT(0, "STRANDED: a thread sleeps although no worker hand-off is outstanding that could wake it (lost wake-up)"); ASSUME(0); }
-    run_one_worker(0);
+  /* the calling thread sleeps: pool workers run the outstanding hand-offs (oldest first); when none is left, another client thread issues the next operation
+     of the sequence; if nobody can make progress the sleeper is stranded */
+  for (int i = 0; i < MAXPEND + 4 && IR_LD32(addr) == val; i++) {
+    if (npend > 0) run_one_worker(0);
+    else if (!hist_other_client_step()) { blocked_forever = 1; ASSERT(0, "STRANDED: a thread sleeps although no worker hand-off is outstanding and no other thread has anything left to do (lost wake-up)"); ASSUME(0); }
   }
   ASSERT(IR_LD32(addr) != val, "STRANDED: a sleeping thread is not woken although every outstanding hand-off has run");
   return 0; }
